@@ -20,7 +20,7 @@ def gen_history(rng, n, length):
     for k in (1, 2, 3):
         ops.append({"o": "new", "vals": vals(k)}); hs.append(k)
     for _ in range(length):
-        c = rng.choice(["new", "set", "set", "set", "clone", "deep", "add", "add", "add", "add_multi", "build", "build", "build_final", "exec", "exec", "exec", "get", "export"])
+        c = rng.choice(["new", "set", "set", "set", "clone", "deep", "add", "add", "add", "add_multi", "build", "build", "build_final", "exec", "exec", "exec", "get", "export", "via_sub"])
         if c == "new":
             k = rng.choice([1, 1, 2, 3]); ops.append({"o": "new", "vals": vals(k)}); hs.append(k)
         elif c == "set":
@@ -49,6 +49,8 @@ def gen_history(rng, n, length):
             cs = rng.sample(rest, rng.randrange(0, min(2, len(rest)) + 1))
             nh = m if rng.random() < 0.7 else max(0, m + rng.choice([-1, 1, 2]))
             ops.append({"o": "add_multi", "kind": kind, "hs": [rng.choice(cand) for _ in range(nh)], "ts": ts, "cs": cs})
+        elif c == "via_sub":
+            ops.append({"o": "via_sub"})
         elif c in ("build", "build_final"):
             ops.append({"o": c}); ncirc += 1
         elif c == "exec" and ncirc:
@@ -97,6 +99,24 @@ def gen_cases(ctx):
                        {"o": "build"}, {"o": "exec", "c": 0}, {"o": "export", "c": 0}, {"o": "set", "h": 0, "vals": [float2bits(x) for x in base]}, {"o": "exec", "c": 0},
                        {"o": "set", "h": 0, "vals": [float2bits(x) for x in sp]}, {"o": "exec", "c": 0}, {"o": "export", "c": 0}]
                 cases.append({"op": "param", "mode": "history", "n": 5, "v": rand_vec(rng, 5, "normalised"), "ops": ops, "thr": 10})
+    # gates that reach the circuit through a subroutine (build_subroutine + add_subroutine) still follow their parameter
+    for kind in ARITY:
+        k = ARITY[kind]
+        v0, v1 = [float2bits(0.35 + 0.2 * j) for j in range(k)], [float2bits(-1.2 + 0.45 * j) for j in range(k)]
+        ops = [{"o": "new", "vals": v0}, {"o": "add", "kind": kind, "h": 0, "t": 0, "cs": []}, {"o": "via_sub"}, {"o": "add", "kind": kind, "h": 0, "t": 2, "cs": [4]},
+               {"o": "build"}, {"o": "exec", "c": 0}, {"o": "set", "h": 0, "vals": v1}, {"o": "exec", "c": 0}, {"o": "export", "c": 0}, {"o": "via_sub"}, {"o": "build_final"},
+               {"o": "set", "h": 0, "vals": v0}, {"o": "exec", "c": 1}, {"o": "exec", "c": 0}]
+        cases.append({"op": "param", "mode": "history", "n": 5, "v": rand_vec(rng, 5, "normalised"), "ops": ops, "thr": 10})
+    # values that are not numbers: set stores what it is given (NaN, +-inf, in any position), every alias reads it back, a deep copy does not
+    nan, inf = float("nan"), float("inf")
+    for k in (1, 2, 3):
+        for pos in range(k):
+            for bad in (nan, inf, -inf):
+                v0 = [0.5 + 0.25 * j for j in range(k)]; v1 = [1.1 + 0.3 * j for j in range(k)]; v1[pos] = bad
+                ops = [{"o": "new", "vals": [float2bits(x) for x in v0]}, {"o": "clone", "h": 0}, {"o": "deep", "h": 0},
+                       {"o": "set", "h": 1, "vals": [float2bits(x) for x in v1]}, {"o": "get", "h": 0}, {"o": "get", "h": 1}, {"o": "get", "h": 2},
+                       {"o": "set", "h": 0, "vals": [float2bits(x) for x in v0]}, {"o": "get", "h": 1}]
+                cases.append({"op": "param", "mode": "history", "n": 2, "v": rand_vec(rng, 2, "normalised"), "ops": ops, "thr": 10})
     # a rejected multi-gate call (list too short / too long) must leave the builder as it was: build and run after the rejection,
     # then retry with a matching list on the same builder
     for kind in [k for k in ARITY if k != "Match"]:
@@ -147,7 +167,7 @@ def cq_obs(ob):
 
 def coq_term(c, r):
     tab = "[" + ";".join("(%s,(%s,%s,%s,%s))" % tuple(cqf(x) for x in e) for e in r["trig"]) + "]"
-    keep = [i for i, o in enumerate(c["ops"]) if o["o"] != "export"]
+    keep = [i for i, o in enumerate(c["ops"]) if o["o"] not in ("export", "via_sub")]
     return "check_param_history %s %s %s %s [%s] [%s]" % (tab, cqbool(c["n"] >= c["thr"]), cqN(c["n"]), cqvec(c["v"]),
                                                              ";".join(cq_xop(c["ops"][i]) for i in keep), ";".join(cq_obs(r["obs"][i]) for i in keep))
 
@@ -193,7 +213,7 @@ def judge(ctx, cases, results, codes):
                                            {"case": c, "brief": b, "text": ob.get("text", "")[:800]}))
         if code == 0: stats["histories_ok"] += 1
         else:
-            keep = [i for i, o in enumerate(c["ops"]) if o["o"] != "export"]
+            keep = [i for i, o in enumerate(c["ops"]) if o["o"] not in ("export", "via_sub")]
             o = c["ops"][keep[code - 1]]; ob = r["obs"][keep[code - 1]]
             what = {"exec": "executing a built circuit did not apply the concrete gates with the parameters' CURRENT values",
                     "get": "a handle does not read the value last set through one of its aliases",
